@@ -134,6 +134,7 @@ type Frame struct {
 	panics  []retInfo // panic exits (abort outcomes)
 	callerF *Frame
 	mods    []modEntry
+	lockObjs []*LVal
 	curBlock *ssa.BasicBlock
 	sites   map[*ssa.Function]int
 	siteN   map[string]int
@@ -155,6 +156,7 @@ type loopInfo struct {
 	hdr     *State
 	gh      string
 	iterDom []iterDom
+	mutexHeaps []string
 }
 
 var inlineDepthLimit = 6
@@ -816,6 +818,19 @@ func (f *Frame) execInstr(b *ssa.BasicBlock, instr ssa.Instruction, st *State, g
 		} else {
 			f.safety(b, "nil", in, not(eq(x.T, "0")))
 			f.vals[in] = Val{T: "INTERIOR", LV: &LVal{Heap: e.fieldHeap(structT, in.Field), Ref: x.T, BaseT: ft, T: ft}}
+			if e.lockDiscipline {
+				if gs := e.guardOf(in.X.Type()); gs != nil {
+					if _, local := in.X.(*ssa.Alloc); !local {
+						for _, gf := range gs.Fields {
+							if gf == stt.Field(in.Field).Name() {
+								cur := f.loadLV(st, f.mutexHeld(f.mutexOf(x, in.X.Type(), gs)))
+								f.oblige("lock", f.oblName(fmt.Sprintf("%s:guarded[%s.%s]#%d", funcDisplay(f.fn), gs.Struct, gf, f.callSiteN("g:"+gf))), g, not(eq(cur, "0")),
+									"access to "+gs.Struct+"."+gf+" requires "+gs.Struct+"."+gs.Mutex+" to be held", []string{"C11"}, in.Pos())
+							}
+						}
+					}
+				}
+			}
 		}
 	case *ssa.IndexAddr:
 		x := f.val(in.X)
@@ -823,7 +838,7 @@ func (f *Frame) execInstr(b *ssa.BasicBlock, instr ssa.Instruction, st *State, g
 		switch t := in.X.Type().Underlying().(type) {
 		case *types.Slice:
 			f.safety(b, "bounds", in, and(app("<=", "0", idx), app("<", idx, app("s_len", x.T))))
-			f.vals[in] = Val{T: "INTERIOR", LV: &LVal{Heap: e.arrHeap(t.Elem()), Ref: app("s_arr", x.T), Idx: app("+", app("s_off", x.T), idx), BaseT: t.Elem(), T: t.Elem()}}
+			f.vals[in] = Val{T: "INTERIOR", LV: &LVal{Heap: e.arrHeap(t.Elem()), Ref: app("s_arr", x.T), Idx: app("sidx", app("s_off", x.T), idx), BaseT: t.Elem(), T: t.Elem()}}
 		case *types.Pointer:
 			arr := t.Elem().Underlying().(*types.Array)
 			f.safety(b, "bounds", in, and(app("<=", "0", idx), app("<", idx, itoa(int(arr.Len())))))
